@@ -445,6 +445,16 @@ J gen_tunnel(uint64_t seed, const J &ov)
 			fdur = 2 + r.uniform() * 25;
 			f.set("ref", "abs"); f.set("t0_us", (long long)150000); f.set("t1_us", (long long)((0.15 + fdur) * 1e6));
 			cfg.set("hs", true);
+			// Raw mode behind a resolver: the DNS queries reach iodined from the relay's address, the raw login from the client's own.
+			// Only in the job rawrelay (there: always, and the server's raw replies never arrive - findings/r5/C02-finding3, a known
+			// finding); the general job never lets a client behind a relay try raw mode.
+			J cl2 = cfg["clients"];
+			if (ov.getb("rawrelay")) {
+				J rl = cfg.has("relay") ? cfg["relay"] : J::obj(); rl.set("nat", true); cfg.set("relay", rl);
+				cl2.a[0].set("raw", true); f.set("rawlate", true); f.set("rawlate_min_us", (long long)30000000); f.set("rawlate_max_us", (long long)50000000);
+				cfg.set("rawrelay", true);
+			} else if (cfg.has("relay")) cl2.a[0].set("raw", false);
+			cfg.set("clients", cl2);
 		}
 		f.set("p_drop", r.chance(0.8) ? r.uniform() * (r.chance(0.2) ? (hs ? 0.6 : 1.0) : (hs ? 0.3 : 0.5)) : 0.0);
 		f.set("p_dup", r.chance(0.6) ? r.uniform() * 0.4 : 0.0);
